@@ -227,16 +227,19 @@ def c16_jobs(tier, seed):
         for s in core[d % stride::stride]:
             if d == 12 and tier == "quick":  # reduced product: the differential mode runs the history twice, keep 2 symbolic constants
                 s = gen.limit_sym(s, 2, random.Random(zlib.crc32(s.encode())))
-            J.append(dom_job(d, s, "c16q", budget=600 if tier == "quick" else 1200, tier=tier))
+            J.append(dom_job(d, s, "c16q", budget=900 if tier == "quick" else 1200, tier=tier))
+    # copy-on-write histories: at most 3 symbolic constants (the differential modes run every history twice)
+    cow = [gen.limit_sym(s, 3, random.Random(zlib.crc32(s.encode()))) for s in gen.COW_CORE]
     for d in (22, 23):
-        for s in core + gen.COW_CORE:
-            J.append(dom_job(d, s, "c16w", budget=400, tier=tier))
-        for s in gen.COW_CORE:
-            J.append(dom_job(d, s, "c16q", budget=400, tier=tier))
+        for s in core:
+            J.append(dom_job(d, s, "c16w", budget=900, tier=tier))
+        for s in cow:
+            J.append(dom_job(d, s, "c16w", budget=900, tier=tier))
+            J.append(dom_job(d, s, "c16q", budget=900, tier=tier))
         for s in core[d % 3::3]:
-            J.append(dom_job(d, s, "sound", budget=400, tier=tier))
-    for s in gen.COW_CORE:
-        J.append(dom_job(1, s, "c16q", budget=400, tier=tier))
+            J.append(dom_job(d, s, "sound", budget=900, tier=tier))
+    for s in cow:
+        J.append(dom_job(1, s, "c16q", budget=900, tier=tier))
     # copy-then-mutate histories in sound mode: every observation of the untouched value is unchanged
     cp = [s for s in core if "cpy" in s]
     for d in ([1, 2, 5, 10, 13, 18, 21] if tier == "quick" else [1, 2, 3, 4, 5, 10, 12, 13, 17, 18, 20, 21]):
